@@ -1,5 +1,5 @@
 """Callables under test for C13.  NOT imported as a module: vf/c13_callables.py renders the header and the
-sections a case needs (`# --- section: <name>` lines) once per case (the marker C13CASEID is replaced by a
+sections a case needs (they start at the "section:" comment lines) once per case (the marker C13CASEID is replaced by a
 unique id, so that every function has a code object that is unequal to the one of every other case - code
 objects compare by value and key the conversion cache), writes the text to a scratch file and executes it as
 a fresh module under the module name the case asks for.
@@ -157,6 +157,18 @@ class GenCall(object):
 class NativeCall(object):
   """Callable object whose __call__ is a native binding (no __code__)."""
   __call__ = dict
+
+
+# --- section: partialsub
+class PartialSub(functools.partial):
+  """A functools.partial subclass whose own __call__ is what Python runs."""
+
+  def __call__(self, a='da', *rest, k='dk', **kw):
+    r = ('partialsubcall', 'C13CASEID', self, a, rest, k, kw)
+    LOG.append(r)
+    if RAISE:
+      raise Boom(r)
+    return r
 
 
 # --- section: meta
